@@ -1,0 +1,158 @@
+//go:build verif
+
+// Read-only accessors for the verification harness (/verif). This file is only
+// compiled with the `verif` build tag; it adds no behaviour to the policy.
+
+package topologyaware
+
+import (
+	"sort"
+
+	"github.com/containers/nri-plugins/pkg/resmgr/cache"
+	libmem "github.com/containers/nri-plugins/pkg/resmgr/lib/memory"
+	policyapi "github.com/containers/nri-plugins/pkg/resmgr/policy"
+)
+
+// VerifPool is a snapshot of one pool of the topology tree.
+type VerifPool struct {
+	Name     string `json:"name"`
+	Kind     string `json:"kind"`
+	Parent   string `json:"parent"` // "" for the root
+	Depth    int    `json:"depth"`
+	Isolated []int  `json:"isol"`  // total supply
+	Reserved []int  `json:"rsv"`   //
+	Sharable []int  `json:"shar"`  //
+	FreeIsol []int  `json:"fisol"` // free supply
+	FreeRsv  []int  `json:"frsv"`
+	FreeShar []int  `json:"fshar"`
+	GShared  int    `json:"gshar"` // granted shared mCPU at this pool (free supply ledger)
+	GRsv     int    `json:"grsv"`  // granted reserved mCPU at this pool
+	MemDRAM  []int  `json:"dram"`
+	MemPMEM  []int  `json:"pmem"`
+	MemHBM   []int  `json:"hbm"`
+	AllocShr int    `json:"allocshar"` // AllocatableSharedCPU()
+	AllocRsv int    `json:"allocrsv"`  // AllocatableReservedCPU()
+}
+
+// VerifGrant is a snapshot of one grant.
+type VerifGrant struct {
+	Container string `json:"c"`
+	Pool      string `json:"pool"`
+	Exclusive []int  `json:"excl"`
+	Isolated  []int  `json:"isol"`
+	CPUType   string `json:"ctype"`
+	Portion   int    `json:"portion"`
+	MemType   int    `json:"mtype"`
+	MemZone   []int  `json:"mzone"`
+	MemSize   int64  `json:"msize"`
+}
+
+// VerifState is a snapshot of the policy.
+type VerifState struct {
+	Root     string       `json:"root"`
+	Allowed  []int        `json:"allowed"`
+	Reserved []int        `json:"reserved"`
+	Isolated []int        `json:"isolated"`
+	Pools    []VerifPool  `json:"pools"`
+	Grants   []VerifGrant `json:"grants"`
+}
+
+func verifInts(in []int) []int {
+	out := make([]int, 0, len(in))
+	out = append(out, in...)
+	sort.Ints(out)
+	return out
+}
+
+// VerifSnapshot returns a read-only snapshot of pools and grants of a topology-aware backend.
+func VerifSnapshot(b policyapi.Backend) *VerifState {
+	p, ok := b.(*policy)
+	if !ok || p == nil {
+		return nil
+	}
+	s := &VerifState{
+		Allowed:  verifInts(p.allowed.List()),
+		Reserved: verifInts(p.reserved.List()),
+		Isolated: verifInts(p.isolated.List()),
+		Pools:    []VerifPool{},
+		Grants:   []VerifGrant{},
+	}
+	if p.root != nil {
+		s.Root = p.root.Name()
+	}
+	for _, n := range p.pools {
+		ns, fs := n.GetSupply(), n.FreeSupply()
+		vp := VerifPool{
+			Name:     n.Name(),
+			Kind:     string(n.Kind()),
+			Depth:    n.RootDistance(),
+			Isolated: verifInts(ns.IsolatedCPUs().List()),
+			Reserved: verifInts(ns.ReservedCPUs().List()),
+			Sharable: verifInts(ns.SharableCPUs().List()),
+			FreeIsol: verifInts(fs.IsolatedCPUs().List()),
+			FreeRsv:  verifInts(fs.ReservedCPUs().List()),
+			FreeShar: verifInts(fs.SharableCPUs().List()),
+			GShared:  fs.GrantedShared(),
+			GRsv:     fs.GrantedReserved(),
+			MemDRAM:  verifInts(n.GetMemset(memoryDRAM).Members()),
+			MemPMEM:  verifInts(n.GetMemset(memoryPMEM).Members()),
+			MemHBM:   verifInts(n.GetMemset(memoryHBM).Members()),
+			AllocShr: fs.AllocatableSharedCPU(true),
+		}
+		if !n.IsRootNode() && !n.Parent().IsNil() {
+			vp.Parent = n.Parent().Name()
+		}
+		if cs, ok := fs.(*supply); ok {
+			vp.AllocRsv = cs.AllocatableReservedCPU()
+		}
+		s.Pools = append(s.Pools, vp)
+	}
+	ids := make([]string, 0, len(p.allocations.grants))
+	for id := range p.allocations.grants {
+		ids = append(ids, id)
+	}
+	sort.Strings(ids)
+	for _, id := range ids {
+		g := p.allocations.grants[id]
+		s.Grants = append(s.Grants, VerifGrant{
+			Container: id,
+			Pool:      g.GetCPUNode().Name(),
+			Exclusive: verifInts(g.ExclusiveCPUs().List()),
+			Isolated:  verifInts(g.IsolatedCPUs().List()),
+			CPUType:   g.CPUType().String(),
+			Portion:   g.CPUPortion(),
+			MemType:   int(g.MemoryType()),
+			MemZone:   verifInts(g.GetMemoryZone().Slice()),
+			MemSize:   g.GetMemorySize(),
+		})
+	}
+	return s
+}
+
+// VerifAllocator returns the policy's memory allocator (read-only use).
+func VerifAllocator(b policyapi.Backend) *libmem.Allocator {
+	if p, ok := b.(*policy); ok && p != nil {
+		return p.memAllocator
+	}
+	return nil
+}
+
+// VerifPrefs is the outcome of the CPU/memory eligibility rules for a container.
+type VerifPrefs struct {
+	Full     int    `json:"full"`
+	Fraction int    `json:"fraction"`
+	Isolate  bool   `json:"isolate"`
+	CPUType  string `json:"ctype"`
+	MemReq   int64  `json:"memreq"`
+	MemLim   int64  `json:"memlim"`
+	MemType  int    `json:"mtype"`
+}
+
+// VerifPreferences evaluates the real eligibility rules (cpuAllocationPreferences,
+// memoryAllocationPreference) for a cached container.
+func VerifPreferences(pod cache.Pod, c cache.Container) VerifPrefs {
+	full, fraction, isolate, ctype, _ := cpuAllocationPreferences(pod, c)
+	req, lim, mtype := memoryAllocationPreference(pod, c)
+	return VerifPrefs{Full: full, Fraction: fraction, Isolate: isolate, CPUType: ctype.String(),
+		MemReq: req, MemLim: lim, MemType: int(mtype)}
+}
